@@ -911,6 +911,26 @@ def typed_cases(ctx, types, maxdigits):
     return cases, stats
 
 
+MULTI_NAMES = {"MULTIPLEVALUESTRING", "MULTIPLESTRINGVALUE"}
+
+
+def is_multi(ftype):
+    return ftype.upper() in MULTI_NAMES
+
+
+def member_list(es, v):
+    """SPEC of an enumerated MultipleValueString: one or more values delimited by single blanks, each enumerated
+    (written as a character walk; not str.split)"""
+    cur, ok = "", True
+    for ch in v:
+        if ch == " ":
+            ok = ok and cur in es
+            cur = ""
+        else:
+            cur += ch
+    return ok and cur in es
+
+
 def enum_cases(ctx, dicts):
     cases = []
     for name, fields in dicts.items():
@@ -922,6 +942,12 @@ def enum_cases(ctx, dicts):
             for e in es:
                 probes.update({e + " ", " " + e, e.swapcase(), e + e, e[:-1], e + "\x01", e.lower(), e.upper(), "0" + e})
             probes.update({"", "?", "Y", "N", "0", "1", "ZZZ", "="})
+            # lists of enumerators (members of the lexical space only for MultipleValueString fields) and their near-misses
+            a, b, c3 = es[0], es[-1], es[len(es) // 2]
+            for x, y in {(a, b), (b, a), (a, a), (c3, a)}:
+                probes.update({x + " " + y, x + "  " + y, " " + x + " " + y, x + " " + y + " ", x + "\t" + y, x + "," + y, x + " ?", "? " + y,
+                               x + " " + y + " " + c3, x + " " + y.swapcase(), x + "\u00a0" + y})
+            probes.update({" ", "  ", a + " " + " ".join(es[:6])})
             # lists of enumerators (a MultipleValueString reading of a plain enumerated field), other separators
             for i in range(min(len(es), 4)):
                 for j in range(min(len(es), 4)):
@@ -1033,8 +1059,8 @@ def correspondence(ctx):
             theirs = (lf.name, lf.ftype, list(lf.values.keys())) if lf is not None else None
             if mine != theirs:
                 dis.append({"input": f"{name} field {f['tag']}", "model": mine, "impl": theirs})
-            if not f["type"].isascii() or any(e == "" for e in f["enums"]) or len(set(f["enums"])) != len(f["enums"]):
-                dis.append({"input": f"{name} field {f['tag']}", "model": "ASCII type name, non-empty distinct enumerators", "impl": mine})
+            if not f["type"].isascii() or any(e == "" or " " in e for e in f["enums"]) or len(set(f["enums"])) != len(f["enums"]):
+                dis.append({"input": f"{name} field {f['tag']}", "model": "ASCII type name, non-empty distinct enumerators without blanks", "impl": mine})
     types = dictionary_types(dicts)
     distribution["dictionary_fields"] = nfields
     distribution["datatypes"] = sorted(set(t.upper() for t in types))
@@ -1137,7 +1163,15 @@ def correspondence(ctx):
             shape = (ls == "1" and ln_ == "n=") or ld == "1"
             if shape != (il == "ok"):
                 dis.append({"input": {"theorem-shape": t, "value": v}, "model": f"spec={ls} {ln_} dev={ld}", "impl": il, "level": "theorem-shape"})
-    npred = len(lines)
+    ml = [c for c in enums if is_multi(c[0]) and isinstance(c[3], str)]
+    mlout = drv.batch(["lex.ml %s%s" % (enc(v), "".join(" " + enc(e) for e in es)) for (t, tag, es, v) in ml])
+    for (t, tag, es, v), lo in zip(ml, mlout):
+        ps = "1" if member_list(es, v) else "0"
+        if lo != ps:
+            dis.append({"input": {"spec": "memberList", "enums": list(es)[:8], "value": v}, "model": lo, "impl": ps, "level": "spec-recogniser"})
+    distribution["enumerated MultipleValueString probes"] = len(ml)
+    distribution["enumerated MultipleValueString probes in the lexical space"] = sum(1 for c in ml if member_list(c[2], c[3]))
+    npred = len(lines) + len(ml)
     distribution["spec/narrow/deviation predicate comparisons"] = npred
 
     samples = []
@@ -1176,7 +1210,12 @@ def enum_verdict(c, impl):
     t, tag, es, v = c
     if impl.startswith("raised:") or impl.startswith("returned:"):
         return (f"C19-foreign-exception:{impl.split(':', 1)[1]}", "a rejection that is not the library's FIXMessageError")
-    want = isinstance(v, str) and v != "" and v in es
+    if is_multi(t):
+        want = isinstance(v, str) and v != "" and member_list(es, v)
+        if want and impl != "ok":
+            return ("C19-enum:rejects-member-list", "a blank-delimited list of enumerated values of a MultipleValueString field is rejected")
+    else:
+        want = isinstance(v, str) and v != "" and v in es
     if want and impl != "ok":
         return ("C19-enum:rejects-enumerator", "an enumerated value of the field is rejected")
     if not want and impl == "ok":
